@@ -65,6 +65,9 @@ func c18unmarshal(s *Sink, fs []LField, t reflect.Type, buf []byte, class string
 				"decoded value changed when the input buffer was overwritten afterwards")
 		}
 	}
+	if len(fs) > 0 {
+		entryProbe(s, "layout "+ff, t, fs, buf, cl, vals)
+	}
 	term := fmt.Sprintf("CUnmarshal %s %s %s %s", ss, ff, coqBytes(buf), coqOutcome(cl, vals))
 	js := map[string]any{"op": "unmarshal", "layout": fs, "buf_hex": hexs(buf), "outcome": cl, "msg": msg, "values": vals}
 	gate := len(buf) == 64 && (buf[0] == 0x17 || (buf[0] == 0x19 && buf[1] == 0x20))
